@@ -287,6 +287,7 @@ func runC03(c *core.Ctx) core.Meta {
 
 	// ---------------- R03.6 float-to-integer conversions are range-guarded ----------------
 	st6 := c.Rule("R03.6", "a conversion of a floating-point operand value to an integer type in an instruction handler is reached only on paths on which that floating-point value was compared against an upper and a lower bound (or a 64-bit integer image of it, which on the supported Go ports is outside the 32-bit range for out-of-range inputs): Go leaves out-of-range and NaN conversions implementation-specific, while the ISA saturates; and no range test compares an already converted integer with a bound of its own type (such a clamp can never fire)", 4)
+	st30 := c.Rule("R03.30", "a conversion of a floating-point operand value to a 16- or 32-bit integer type in an instruction handler is reached only on paths that tested that value for NaN (math.IsNaN of it, or a self-comparison) in a branch that dominates the conversion: v_cvt_i32_f32 and v_cvt_u32_f32 of NaN are 0", 3)
 	for _, a := range alus {
 		for _, fn := range c.SrcFuncs(a.pkg) {
 			if fn.Signature.Recv() == nil {
@@ -390,6 +391,53 @@ func runC03(c *core.Ctx) core.Meta {
 									upper = true
 								}
 							}
+						}
+					}
+					// R03.30: NaN excluded before the conversion
+					nan := false
+					for _, b2 := range fn.Blocks {
+						for _, i2 := range b2.Instrs {
+							var test ssa.Value
+							switch x := i2.(type) {
+							case *ssa.Call:
+								if cal := x.Call.StaticCallee(); cal != nil && cal.Pkg != nil && cal.Pkg.Pkg.Path() == "math" && cal.Name() == "IsNaN" && len(x.Call.Args) == 1 && rootF(x.Call.Args[0]) == src {
+									test = x
+								}
+							case *ssa.BinOp:
+								if (x.Op == token.NEQ || x.Op == token.EQL) && rootF(x.X) == src && rootF(x.Y) == src {
+									test = x
+								}
+							}
+							if test == nil || test.Referrers() == nil {
+								continue
+							}
+							// the test may be combined with others (a || b): follow to the If through phi-free uses
+							work := []ssa.Value{test}
+							for len(work) > 0 {
+								v := work[0]
+								work = work[1:]
+								for _, ref := range *v.Referrers() {
+									switch r := ref.(type) {
+									case *ssa.If:
+										if r.Block().Dominates(b) && r.Block() != b {
+											nan = true
+										}
+									case *ssa.UnOp:
+										work = append(work, r)
+									case *ssa.Phi: // short-circuit || / &&
+										if r.Referrers() != nil {
+											work = append(work, r)
+										}
+									}
+								}
+							}
+						}
+					}
+					if bk, ok := cv.Type().Underlying().(*types.Basic); ok && (bk.Kind() == types.Int32 || bk.Kind() == types.Uint32 || bk.Kind() == types.Int16 || bk.Kind() == types.Uint16 || bk.Kind() == types.Int || bk.Kind() == types.Uint) {
+						st30.Instances++
+						st30.Ob(nan)
+						if !nan {
+							c.ReportAt("R03.30", fn, in.Pos(), fmt.Sprintf("nan-unguarded-f2i:%s", cv.Type()), fmt.Sprintf("a %s operand value is converted to %s on a path that never tested it for NaN: range comparisons are false for NaN, so NaN reaches the conversion, whose Go result is implementation-specific (0x80000000 on amd64); the ISA gives 0", cv.X.Type(), cv.Type()))
 						}
 					}
 					ok2 := upper && lower
@@ -1134,6 +1182,7 @@ func runC03(c *core.Ctx) core.Meta {
 	checkWrappedComparisons(c)
 	checkMaskWrittenWhole(c)
 	checkUnsignedCarry(c, handlers)
+	checkClampValues(c)
 
 	// ---------------- R03.12 conditional moves select with the right polarity ----------------
 	st12 := c.Rule("R03.12", "v_cndmask_b32 writes S1 where the lane's bit of the condition mask (VCC, or the SGPR pair in SRC2) is set and S0 where it is clear; s_cselect writes S0 when SCC is 1 and S1 otherwise; s_cmov / s_cmovk write only when SCC is 1: decided by resolving the handler's test of the selector both ways and following the value that reaches the destination write", 6)
